@@ -750,12 +750,10 @@ impl<'a> GExec<'a> {
             return false;
         }
         if fresh == 0 {
+            // nothing new: no approval event (checked above) and, below, every id of the batch
+            // still reads exactly as before.  Ledger data as such is not compared: the statement
+            // speaks of recorded content and status, not of bytes.
             ctx.count("probe.batch_of_known_ids_only");
-            if !ctx.check(res.unchanged_data(), &["C02"], "approve/known-ids-changed-state", || {
-                "an approval batch consisting only of known ids changed ledger data".to_string()
-            }) {
-                return false;
-            }
         }
         self.check_batch_status(ctx, g, resolved, dests, props)
     }
@@ -905,8 +903,11 @@ impl<'a> GExec<'a> {
                 }) {
                     return;
                 }
-                ctx.check(res.unchanged_data() && res.events.is_empty(), &["C01"], "validate_proof/changed-state", || {
-                    "the standalone proof check changed ledger data".to_string()
+                // (no expectation on ledger data here: the properties do not forbid an accepted
+                // proof check from writing, e.g. a verdict cache; what a stale cache would break
+                // is caught where it matters, by the retention and latest-set expectations)
+                ctx.check(res.events.iter().all(|e| e.name() != "message_approved" && e.name() != "signers_rotated"), &["C01"], "validate_proof/approved-or-rotated", || {
+                    "the standalone proof check approved a message or rotated signers".to_string()
                 });
             }
         }
@@ -1026,9 +1027,15 @@ impl<'a> GExec<'a> {
                 format!("expected one message_executed event, got {:?}", res.events.iter().map(|e| e.name()).collect::<Vec<_>>())
             });
         } else {
-            ctx.check(res.unchanged_data() && res.events.is_empty(), &["C02"], "consume/refusal-changed-state", || {
-                "validate_message returned false but changed ledger data or emitted events".to_string()
-            });
+            // a refusal by return value: no execution / approval event, and the status of this
+            // id (and, in the per-step invariants, of every other known id) reads as before
+            if !ctx.check(res.events.iter().all(|e| e.name() != "message_executed" && e.name() != "message_approved"), &["C02"], "consume/refusal-emitted-event", || {
+                "validate_message returned false but announced an execution or approval".to_string()
+            }) {
+                return;
+            }
+            let d = self.addr_of_contract_id(&claimed.contract);
+            self.check_status(ctx, g, &claimed, &d, &["C02"]);
         }
     }
 
